@@ -2,6 +2,7 @@
 import PflDrv.FA
 import PflDrv.CFG
 import PflDrv.PDA
+import PflDrv.FST
 open Lean PflDrv
 
 def dispatch (j : Json) : R Json := do
@@ -9,6 +10,7 @@ def dispatch (j : Json) : R Json := do
   if op.startsWith "fa." then faHandle op j
   else if op.startsWith "cfg." then cfgHandle op j
   else if op.startsWith "pda." then pdaHandle op j
+  else if op.startsWith "fst." then fstHandle op j
   else if op == "ping" then pure (Json.str "pong")
   else throw s!"unknown op {op}"
 
